@@ -70,6 +70,10 @@ struct Prog {
     /// value `.2`: every later record that shows the span has to show the value
     #[serde(default)]
     late: Option<(u8, u8, i64)>,
+    /// right after that record the same field is recorded again with this value (the later
+    /// value is the one to show)
+    #[serde(default)]
+    late_again: Option<i64>,
 }
 #[derive(Clone, Debug, Serialize, Deserialize, PartialEq)]
 struct Ev {
@@ -86,6 +90,16 @@ struct Case {
     opts: Opts,
     writer: W,
     threads: Vec<Prog>,
+    /// all threads work inside clones of ONE root span; thread `.0` records that span's field
+    /// `late` with a value whose Debug impl is slow (value `.2`) before its event `.1`, while the
+    /// other threads emit: every record has to show the root with its creation fields
+    #[serde(default)]
+    shared: Option<(u8, u8, i64)>,
+    /// the sinks accept at most this many bytes per write call (a writer may legally do that);
+    /// only used when the writer expression has no `and` (a tee over short writers is lossy by
+    /// its own definition)
+    #[serde(default)]
+    short: Option<u8>,
 }
 
 const TGT: [&str; 2] = ["a", "c"];
@@ -99,14 +113,18 @@ enum SinkEv {
 #[derive(Clone)]
 struct Sink {
     log: Arc<Mutex<Vec<SinkEv>>>,
+    /// 0 = accept everything
+    cap: usize,
 }
 struct SinkWriter {
     log: Arc<Mutex<Vec<SinkEv>>>,
+    cap: usize,
 }
 impl io::Write for SinkWriter {
     fn write(&mut self, buf: &[u8]) -> io::Result<usize> {
-        self.log.lock().unwrap().push(SinkEv::Write { bytes: buf.to_vec(), thread: vp_rec::tag() });
-        Ok(buf.len())
+        let n = if self.cap > 0 { buf.len().min(self.cap) } else { buf.len() };
+        self.log.lock().unwrap().push(SinkEv::Write { bytes: buf[..n].to_vec(), thread: vp_rec::tag() });
+        Ok(n)
     }
     fn flush(&mut self) -> io::Result<()> {
         Ok(())
@@ -116,11 +134,11 @@ impl<'a> MakeWriter<'a> for Sink {
     type Writer = SinkWriter;
     fn make_writer(&'a self) -> SinkWriter {
         self.log.lock().unwrap().push(SinkEv::Make { level: 0, target: String::new(), thread: vp_rec::tag(), with_meta: false });
-        SinkWriter { log: self.log.clone() }
+        SinkWriter { log: self.log.clone(), cap: self.cap }
     }
     fn make_writer_for(&'a self, m: &Metadata<'_>) -> SinkWriter {
         self.log.lock().unwrap().push(SinkEv::Make { level: vp_rec::rank(m.level()), target: m.target().to_string(), thread: vp_rec::tag(), with_meta: true });
-        SinkWriter { log: self.log.clone() }
+        SinkWriter { log: self.log.clone(), cap: self.cap }
     }
 }
 
@@ -225,6 +243,13 @@ fn build_layer(f: Fmt, o: Opts, mw: BoxMakeWriter) -> BS {
     }
 }
 
+struct SlowDbg(i64);
+impl std::fmt::Debug for SlowDbg {
+    fn fmt(&self, f: &mut std::fmt::Formatter<'_>) -> std::fmt::Result {
+        std::thread::sleep(std::time::Duration::from_millis(3));
+        write!(f, "slow{}", self.0)
+    }
+}
 struct Bomb;
 impl std::fmt::Debug for Bomb {
     fn fmt(&self, f: &mut std::fmt::Formatter<'_>) -> std::fmt::Result {
@@ -402,8 +427,24 @@ fn check_record(case: &Case, bytes: &[u8], w: &Want) -> Result<(), (String, Stri
 }
 
 fn run_case(case: &Case) -> Outcome {
-    let sinks: Vec<Sink> = (0..3).map(|_| Sink { log: Default::default() }).collect();
-    let layer = build_layer(case.fmt, case.opts, build_writer(&case.writer, &sinks));
+    fn has_tee(w: &W) -> bool {
+        match w {
+            W::Sink(_) => false,
+            W::Tee(..) => true,
+            W::MaxLevel(a, _) | W::MinLevel(a, _) | W::Filter(a, _) | W::Boxed(a) => has_tee(a),
+            W::OrElseMax(a, _, b) | W::OrElseFilter(a, _, b) => has_tee(a) || has_tee(b),
+        }
+    }
+    let cap = match case.short {
+        Some(c) if !has_tee(&case.writer) => 5 + c as usize % 60,
+        _ => 0,
+    };
+    let sinks: Vec<Sink> = (0..3).map(|_| Sink { log: Default::default(), cap }).collect();
+    let mut opts_run = case.opts;
+    if case.shared.is_some() {
+        opts_run.span_events = 0; // whoever drops the last clone would emit the shared root's close record
+    }
+    let layer = build_layer(case.fmt, opts_run, build_writer(&case.writer, &sinks));
     let dispatch = tracing_core::Dispatch::new(Registry::default().with(layer));
     let nthreads = case.threads.len();
     let barrier = Arc::new(Barrier::new(nthreads));
@@ -411,30 +452,40 @@ fn run_case(case: &Case) -> Outcome {
     // expected records per thread
     for (t, p) in case.threads.iter().enumerate() {
         let mut v = vec![];
+        // with a shared root every thread sees the root created from thread 0's values
+        let rp = if case.shared.is_some() { &case.threads[0] } else { p };
         let spans: Vec<(&'static str, &'static str, usize, u8, Vec<(&'static str, String, serde_json::Value)>)> = vec![
-            ("root", "a", 0, 3, vec![("rid", p.rid.to_string(), serde_json::json!(p.rid)), ("who", format!("{:?}", p.who), serde_json::json!(p.who))]),
+            ("root", "a", 0, 3, vec![("rid", rp.rid.to_string(), serde_json::json!(rp.rid)), ("who", format!("{:?}", rp.who), serde_json::json!(rp.who))]),
             ("mid", "a::b", 2, 4, vec![("n", p.n.to_string(), serde_json::json!(p.n))]),
             ("leaf", "c", 1, 5, vec![("flag", p.flag.to_string(), serde_json::json!(p.flag))]),
         ];
-        let d = (p.depth as usize).min(3);
+        let d = if case.shared.is_some() { (p.depth as usize).clamp(1, 3) } else { (p.depth as usize).min(3) };
+        let span_events = if case.shared.is_some() { 0 } else { case.opts.span_events };
         let scope_of = |n: usize| -> Vec<(&'static str, &'static str, Vec<(&'static str, String, serde_json::Value)>)> { spans[..n].iter().map(|s| (s.0, s.1, s.4.clone())).collect() };
         // JSON lists the spans *entered* on the thread in `spans` (the span itself is in `span`);
         // at new/exit/close time the span itself is not entered
         let json = case.fmt == Fmt::Json;
         let life = |word: &str, i: usize, scope_n: usize| Want { level: spans[i].3, ti: spans[i].2, id: word.to_string(), is_event: false, k: 0, s: String::new(), scope: scope_of(scope_n), own: Some(spans[i].0) };
         for i in 0..d {
-            if case.opts.span_events & 1 != 0 {
+            if span_events & 1 != 0 {
                 v.push(life("new", i, if json { i } else { i + 1 }));
             }
-            if case.opts.span_events & 2 != 0 {
+            if span_events & 2 != 0 {
                 v.push(life("enter", i, i + 1));
             }
         }
         let mut spans = spans;
         for (n, e) in p.events.iter().enumerate() {
             if let Some((at, which, val)) = p.late {
-                if at as usize % p.events.len() == n && d > 0 {
-                    spans[which as usize % d].4.push(("late", val.to_string(), serde_json::json!(val)));
+                let k = which as usize % d.max(1);
+                if at as usize % p.events.len() == n && d > 0 && !(case.shared.is_some() && k == 0) {
+                    let fin = p.late_again.unwrap_or(val);
+                    spans[k].4.push(("late", fin.to_string(), serde_json::json!(fin)));
+                }
+            }
+            if let Some((rt, at, val)) = case.shared {
+                if rt as usize % case.threads.len() == t && at as usize % p.events.len() == n {
+                    spans[0].4.push(("late", format!("slow{val}"), serde_json::json!(format!("slow{val}"))));
                 }
             }
             let scope_of = |n: usize| -> Vec<(&'static str, &'static str, Vec<(&'static str, String, serde_json::Value)>)> { spans[..n].iter().map(|s| (s.0, s.1, s.4.clone())).collect() };
@@ -443,28 +494,39 @@ fn run_case(case: &Case) -> Outcome {
         let scope_of = |n: usize| -> Vec<(&'static str, &'static str, Vec<(&'static str, String, serde_json::Value)>)> { spans[..n].iter().map(|s| (s.0, s.1, s.4.clone())).collect() };
         let life = |word: &str, i: usize, scope_n: usize| Want { level: spans[i].3, ti: spans[i].2, id: word.to_string(), is_event: false, k: 0, s: String::new(), scope: scope_of(scope_n), own: Some(spans[i].0) };
         for i in (0..d).rev() {
-            if case.opts.span_events & 4 != 0 {
+            if span_events & 4 != 0 {
                 v.push(life("exit", i, if json { i } else { i + 1 }));
             }
-            if case.opts.span_events & 8 != 0 {
+            if span_events & 8 != 0 {
                 v.push(life("close", i, if json { i } else { i + 1 }));
             }
         }
         wants.push(v);
     }
     // run
+    let shared_root: Option<tracing::Span> = case.shared.map(|_| {
+        let p0 = &case.threads[0];
+        tracing_core::dispatch::with_default(&dispatch, || tracing::info_span!(target: "a", "root", rid = p0.rid, who = p0.who.as_str(), late = tracing::field::Empty))
+    });
     std::thread::scope(|sc| {
         for (t, p) in case.threads.iter().enumerate() {
             let d = dispatch.clone();
             let b = barrier.clone();
+            let shared_root = shared_root.clone();
+            let shared = case.shared;
+            let nthreads = case.threads.len();
             std::thread::Builder::new()
                 .name(format!("w{t}"))
                 .spawn_scoped(sc, move || {
                     vp_rec::TAG.with(|c| c.set(t as u8));
                     let _g = tracing_core::dispatch::set_default(&d);
                     b.wait();
-                    let depth = p.depth.min(3);
-                    let root = if depth >= 1 { Some(tracing::info_span!(target: "a", "root", rid = p.rid, who = p.who.as_str(), late = tracing::field::Empty)) } else { None };
+                    let depth = if shared.is_some() { p.depth.clamp(1, 3) } else { p.depth.min(3) };
+                    let root = match shared_root {
+                        Some(r) => Some(r),
+                        None if depth >= 1 => Some(tracing::info_span!(target: "a", "root", rid = p.rid, who = p.who.as_str(), late = tracing::field::Empty)),
+                        None => None,
+                    };
                     let _r = root.as_ref().map(|s| s.enter());
                     let mid = if depth >= 2 { Some(tracing::debug_span!(target: "a::b", "mid", n = p.n, late = tracing::field::Empty)) } else { None };
                     let _m = mid.as_ref().map(|s| s.enter());
@@ -476,10 +538,21 @@ fn run_case(case: &Case) -> Outcome {
                     }
                     for (n, e) in p.events.iter().enumerate() {
                         if let Some((at, which, val)) = p.late {
-                            if at as usize % p.events.len() == n && depth > 0 {
-                                let sp = [&root, &mid, &leaf][which as usize % depth as usize];
+                            let k = which as usize % (depth as usize).max(1);
+                            if at as usize % p.events.len() == n && depth > 0 && !(shared.is_some() && k == 0) {
+                                let sp = [&root, &mid, &leaf][k];
                                 if let Some(sp) = sp {
                                     sp.record("late", val);
+                                    if let Some(again) = p.late_again {
+                                        sp.record("late", again);
+                                    }
+                                }
+                            }
+                        }
+                        if let Some((rt, at, val)) = shared {
+                            if rt as usize % nthreads == t && at as usize % p.events.len() == n {
+                                if let Some(r) = &root {
+                                    r.record("late", tracing::field::debug(SlowDbg(val)));
                                 }
                             }
                         }
@@ -510,7 +583,25 @@ fn run_case(case: &Case) -> Outcome {
                 }
             }
             let makes: Vec<(u8, String, bool)> = mine.iter().filter_map(|e| if let SinkEv::Make { level, target, with_meta, .. } = e { Some((*level, target.clone(), *with_meta)) } else { None }).collect();
-            let writes: Vec<&Vec<u8>> = mine.iter().filter_map(|e| if let SinkEv::Write { bytes, .. } = e { Some(bytes) } else { None }).collect();
+            // the bytes written through each writer handed out (one per record)
+            let mut groups: Vec<(Vec<u8>, usize)> = vec![];
+            for e in &mine {
+                match e {
+                    SinkEv::Make { .. } => groups.push((vec![], 0)),
+                    SinkEv::Write { bytes, .. } => {
+                        if groups.is_empty() {
+                            groups.push((vec![], 0));
+                        }
+                        let g = groups.last_mut().unwrap();
+                        g.0.extend_from_slice(bytes);
+                        g.1 += 1;
+                    }
+                }
+            }
+            // (without a byte cap every write call is a record of its own; with a tee the same sink
+            // hands out several writers before the first write)
+            let singles: Vec<&Vec<u8>> = mine.iter().filter_map(|e| if let SinkEv::Write { bytes, .. } = e { Some(bytes) } else { None }).collect();
+            let writes: Vec<&Vec<u8>> = if cap == 0 { singles } else { groups.iter().filter(|g| g.1 > 0).map(|g| &g.0).collect() };
             let fail = |sig: String, d: String| Outcome::fail(sig, format!("sink {si}, thread {t}: {d}; case = {}", serde_json::to_string(case).unwrap_or_default()));
             if makes.len() != exp.len() {
                 let sig = if makes.len() > exp.len() { "writer factory asked for a record the writer expression does not route to this sink (or asked twice)" } else { "record not routed to a sink the writer expression selects" };
@@ -576,14 +667,15 @@ impl Property for C13 {
         let opts = (any::<bool>(), proptest::bool::weighted(0.8), any::<bool>(), any::<bool>(), any::<bool>(), any::<bool>(), proptest::bool::weighted(0.25), any::<bool>(), prop_oneof![3 => Just(0u8), 2 => 0u8..16])
             .prop_map(|(target, level, thread_ids, thread_names, file, line, ansi, time, span_events)| Opts { target, level, thread_ids, thread_names, file, line, ansi, time, span_events });
         let ev = (1u8..=5, 0u8..2, any::<i64>(), "[a-z0-9]{1,8}").prop_map(|(level, target, k, s)| Ev { level, target, k, s });
-        let prog = (0u8..4, any::<u64>(), "[a-z]{1,6}", any::<i64>(), any::<bool>(), proptest::bool::weighted(0.25), proptest::collection::vec(ev, 1..5), proptest::option::weighted(0.4, (0u8..8, 0u8..3, -5i64..100))).prop_map(|(depth, rid, who, n, flag, panic_first, events, late)| Prog { depth, rid, who, n, flag, panic_first, events, late });
+        let prog = (0u8..4, any::<u64>(), "[a-z]{1,6}", any::<i64>(), any::<bool>(), proptest::bool::weighted(0.25), proptest::collection::vec(ev, 1..5), proptest::option::weighted(0.4, (0u8..8, 0u8..3, -5i64..100)), proptest::option::weighted(0.3, 100i64..200)).prop_map(|(depth, rid, who, n, flag, panic_first, events, late, late_again)| Prog { depth, rid, who, n, flag, panic_first, events, late, late_again });
         let maxt = tier.pick(4usize, 8usize);
-        (fmt_, opts, w_strategy(), proptest::collection::vec(prog, 1..=maxt))
-            .prop_map(|(fmt, mut opts, writer, threads)| {
+        (fmt_, opts, w_strategy(), proptest::collection::vec(prog, 1..=maxt), proptest::option::weighted(0.08, (0u8..8, 0u8..8, 0i64..50)), proptest::option::weighted(0.15, any::<u8>()))
+            .prop_map(|(fmt, mut opts, writer, threads, shared, short)| {
                 if fmt == Fmt::Json {
                     opts.ansi = false;
                 }
-                Case { fmt, opts, writer, threads }
+                let shared = if threads.len() >= 2 { shared } else { None };
+                Case { fmt, opts, writer, threads, shared, short }
             })
             .boxed()
     }
@@ -591,7 +683,7 @@ impl Property for C13 {
         run_case(case)
     }
     fn rule(&self) -> String {
-        "case = formatter {full,compact,pretty,json} x options {target,level,thread ids/names,file,line,ansi,fixed timer on/off,span events NEW/ENTER/EXIT/CLOSE} x writer expression of depth <=3 over 3 recording sinks {Sink,with_max_level,with_min_level,with_filter(target),and,or_else,BoxMakeWriter} x 1-4 (thorough 1-8) concurrently started threads, each: 0-3 nested spans with fields, optional first event whose Debug panics (caught), 1-4 events (level x target x fields k,s) through the real macros. non-trivial: writer depth >= 2, some thread nests >= 2 spans, >= 2 threads; distinct by case".into()
+        "case = formatter {full,compact,pretty,json} x options {target,level,thread ids/names,file,line,ansi,fixed timer on/off,span events NEW/ENTER/EXIT/CLOSE} x writer expression of depth <=3 over 3 recording sinks {Sink,with_max_level,with_min_level,with_filter(target),and,or_else,BoxMakeWriter} x 1-4 (thorough 1-8) concurrently started threads, each: 0-3 nested spans with fields, optional first event whose Debug panics (caught), 1-4 events (level x target x fields k,s) through the real macros, optionally a field of one of its spans recorded (once or twice) before a generated event; in 8 % of the multi-thread cases all threads work inside clones of one root span into which one thread records a value with a slow Debug impl while the others emit. in 15 % of the cases the sinks accept only 5-64 bytes per write call (tee-free writer expressions). non-trivial: writer depth >= 2, some thread nests >= 2 spans, >= 2 threads; distinct by case".into()
     }
     fn assumptions(&self) -> Vec<String> {
         vec![
